@@ -15,7 +15,7 @@ def plan(tier, seed):
                          {'name': 'search_whole_document', 'cfg': {'has_enc': False, 'later': True, 'q': '"', 'sym': 'se'}}])
     famT = dict(name='xml_declaration_bytes_twin', module=H, fn='xml_decl_bytes_twin', jobs=[{}], timeout=300, vacuity=1,
                 mutants=[])
-    famO = dict(name='decoding_order', module=H, fn='order', jobs=[{}], timeout=600, vacuity=1,
+    famO = dict(name='decoding_order', module=H, fn='order', jobs=[{}, {'meta_ct': 'text/xml'}], timeout=600, vacuity=1,
                 mutants=[{'name': 'bom_kept', 'cfg': {}}, {'name': 'meta_before_declaration', 'cfg': {}}])
     famM = dict(name='meta_charset', module=H, fn='meta', jobs=[{}, {'upper': True}], timeout=600 if quick else 1800,
                 vacuity=1, mutants=[])
